@@ -23,6 +23,12 @@ const QUICK_MODELS: [&str; 4] = ["myeloid", "110_9v_parametrized", "110_9v_concr
 
 fn plan(tier: Tier) -> (u64, Vec<&'static str>, u64) {
     // (small-network cases, models, set pairs per model)
+    if let Ok(only) = std::env::var("C11_ONLY_MODEL") {
+        // development aid: probe a single model
+        if let Some(m) = ALL_MODELS.iter().find(|m| **m == only) {
+            return (0, vec![*m], 3);
+        }
+    }
     match tier {
         Tier::Quick => (1200, QUICK_MODELS.to_vec(), 6),
         Tier::Thorough => (60_000, ALL_MODELS.to_vec(), 40),
